@@ -22,7 +22,7 @@ use rustc_middle::mir::{
     self, AggregateKind, BasicBlockData, Body, Const, ConstValue, Operand, Place, PlaceElem,
     Rvalue, StatementKind, TerminatorKind, UnwindAction,
 };
-use rustc_middle::ty::print::{with_crate_prefix, with_no_trimmed_paths};
+use rustc_middle::ty::print::{with_crate_prefix, with_no_trimmed_paths, with_no_visible_paths};
 use rustc_middle::ty::{self, Ty, TyCtxt};
 use rustc_span::Span;
 use std::fmt::Write as _;
@@ -130,8 +130,19 @@ fn fix_crate(s: String) -> String {
     out
 }
 
+/// Def path: std/core/alloc items by their visible (re-exported) path, everything else by its
+/// canonical definition path (so that `pub use` re-exports do not split one item into two names
+/// when seen from the binary crate).
 fn path_of(tcx: TyCtxt<'_>, did: DefId) -> String {
-    fix_crate(with_no_trimmed_paths!(with_crate_prefix!(tcx.def_path_str(did))))
+    let krate = tcx.crate_name(did.krate);
+    let k = krate.as_str();
+    if did.is_local() || k == "std" || k == "core" || k == "alloc" {
+        fix_crate(with_no_trimmed_paths!(with_crate_prefix!(tcx.def_path_str(did))))
+    } else {
+        fix_crate(with_no_trimmed_paths!(with_no_visible_paths!(with_crate_prefix!(
+            tcx.def_path_str(did)
+        ))))
+    }
 }
 
 fn ty_str(ty: Ty<'_>) -> String {
